@@ -14,6 +14,7 @@ pub mod shapes;
 pub mod stacks;
 pub mod targets;
 pub mod util;
+pub mod webcolors_table;
 
 pub use rec::{Args, Rec};
 pub use rng::Rng;
